@@ -301,6 +301,11 @@ def only_index_diffs(a, b):
 
 
 def db_case(ctx, spec, seq, seed, witnesses, rewritten, explained=True):
+    # the optimiser findings explain a batched-only difference at database level only where the optimiser did
+    # something to the list, or where by its Lean model the optimised list ends in another signature
+    if explained and (name_reuse(seq) or touches_renamed_model(seq) or retype_merge(seq)) and not rewritten and \
+            not optrig.model_optimiser_acts(ctx, spec, seq) and not optrig.model_predicts_difference(ctx, spec, seq):
+        explained = False
     A = db_run(spec, seq, 'stepwise', seed)
     if 'error' in A:
         ctx.count('db:stepwise_failed')        # C01's business
@@ -392,6 +397,12 @@ def run(ctx):
     family += [[fk_self, rm('Alpha', 'Gamma')],
                [fk_self, rm('Alpha', 'Gamma'), add_int('Gamma', 'q')],
                [fk_self, rm('Alpha', 'Gamma'), rm('Gamma', 'Delta')]]
+    # ... and a column dropped and a column of the same name added again (the optimiser leaves both alone)
+    delb = {'t': 'DeleteField', 'model': 'Alpha', 'field': 'b'}
+    addb = lambda initial, *attrs: {'t': 'AddField', 'model': 'Alpha', 'field': 'b', 'ftype': 'IntegerField',
+                                    'initial': initial, 'attrs': [list(a) for a in attrs]}
+    family += [[delb, addb(None, ('null', 'true'))], [delb, addb('5')],
+               [delb, add_int('Alpha', 'q'), addb(None, ('null', 'true'))]]
     seqs = family + seqs
     copies = bool(ctx.variant.get('optimizer_copies'))
     reqs = [{'op': 'optimize', 'existing': existing, 'copies': copies,
